@@ -63,8 +63,9 @@ def parse_file(path: Path) -> Union[pymoca.ast.Tree, None]:
             log.error('Syntax error in file "%s"', path)
         elif log.level == logging.DEBUG:
             log.debug(json.dumps(ast.to_json(ast), indent=2))
-    # KeyError and AttributeError are problems in ASTListener
-    except (KeyError, AttributeError, OSError):
+    # KeyError and AttributeError are problems in ASTListener,
+    # UnicodeDecodeError is a file that is not UTF-8 encoded
+    except (KeyError, AttributeError, OSError, UnicodeDecodeError):
         if log.level in (logging.DEBUG, logging.INFO):
             log.exception('Parse error in file "%s"', path)
         else:
